@@ -113,6 +113,27 @@ CHECKS["C01"]["text"] += " The lookup-during-reload scenarios of C16 are explore
 CHECKS["C15"]["text"] += " Every ordered pair of 16 representative requests is also run on ONE listener (unbound and bound): listener state must not influence the next reply."
 for k in ("C02","C03","C04","C05","C06","C07","C08","C09"):
     CHECKS[k]["note"] += " Explorations run in a worker process; every call into the code under test is bracketed by a 30 s watchdog (a reproducible hang or fatal error is reported as a violation, a panic in checker code as exit 2). If the state key turns out not to determine behaviour the configuration is re-explored without merging to depth 4."
+# ---- additions of seed rounds 4 and 5
+for k in ("C05", "C06"):
+    CHECKS[k]["engine"] = "E1+E2"
+CHECKS["C03"]["engine"] = "E1+crash images+E2"
+CHECKS["C11"]["engine"] = "E3+E2"
+CHECKS["C05"]["technique"] += "; plus E2: C04's concurrent Allocate/Free scenarios under all schedules up to 2/3 preemptions (capacity stays exact when callers race)"
+CHECKS["C06"]["technique"] += "; plus E2: two/three threads freeing the same outstanding block (and allocating) under all schedules up to 2/3 preemptions, serial-order oracle + porcupine"
+CHECKS["C03"]["technique"] += "; plus E2 with a virtual clock: 2-3 requests racing for the plugin mutex under all schedules up to 1/2 preemptions, every lock wait costs 10 virtual minutes, stored expiry compared with the promise of each reply"
+CHECKS["C11"]["technique"] += "; plus E2: two different datagrams with forced receive-buffer reuse under all schedules up to the preemption bound (reply must match its own request)"
+CHECKS["C03"]["text"] += " The instrumenter routes time.Now/Until/Since of the instrumented files through the scheduler's clock (running code takes no virtual time, waiting for a lock takes 10 minutes): in the scenarios new||new, renew||new, renew||renew, same-client-twice (thorough: three threads) the expiry found by a restart on the database must not be earlier than (virtual time at which the handler returned) + lease time - 1 s - 5 min real-time tolerance. A restart on the database opened read-only (SQLite mode=ro) is an environment-fault operation of the alphabet: start-up may refuse; if it accepts, later requests must be served without a crash."
+CHECKS["C02"]["text"] += " Environment fault in the alphabet: restart with the lease database opened read-only (start-up may refuse; afterwards only request operations are explored and the reply oracles stay in force)."
+CHECKS["C19"]["text"] += " The one stateful built-in (range) is additionally driven through every history of <=2 requests, a restart on the lease database opened read-only (accepted at start-up) and <=2 further requests from 3 clients: no panic."
+CHECKS["C04"]["text"] += " A 2^21-block pool whose first 2^16 / 2^20 blocks are taken by hinted allocations is then asked for un-hinted blocks: none may be an outstanding one (lazily grown bitmaps)."
+CHECKS["C05"]["text"] += " The 2^21-block hinted-prefix fill of C04 is checked for capacity as well."
+CHECKS["C08"]["text"] += " IA_PD T1/T2 values as a client may send them (0/0, T1>T2, all-ones) are part of the message alphabet."
+CHECKS["C09"]["text"] += " IA_PD T1/T2 variants as in C08; a repeat IA_PD that receives no IA_PD at all in the reply is a violation (repeat-not-answered)."
+CHECKS["C12"]["text"] += " Peers vary in source port (546, 547, ephemeral) as well as address scope; per-layer variants place Interface-ID before and Remote-ID after the Relay-Message option of their layer."
+CHECKS["C17"]["text"] += " staticroute destinations are also given un-normalised (host bits set, e.g. 10.0.5.0/20): option 121 must carry the masked destination's significant octets only."
+CHECKS["C14"]["text"] += " DHCPv4 chains [server_id, X] for every other built-in plugin X, one at a time: the reply still carries this server's identifier."
+CHECKS["C15"]["text"] += " Option 82 sub-option variants (agent circuit-id, link selection, server-id override) are part of the request alphabet."
+CHECKS["C20"]["text"] += " Base patterns include IPv4-mapped and IPv4-compatible addresses (11 patterns)."
 ALL = ["C%02d" % i for i in range(1, 21)]
 NA_REASON = "check not built yet in this session (planned, see DESIGN.md section 5); will be claimed once its machinery exists"
 m = {
@@ -127,7 +148,7 @@ m = {
  },
  "engines": [
   {"name": "E1 explicit-state BFS over real handlers", "path": "mc/explore", "serves_properties": ["C02","C03","C04","C05","C06","C07","C08","C09","C10"], "kind_free_text": "explicit-state model checking where every transition is an execution of the real code on a fresh instance (replay of the shortest path + 1 op); state key = hook dump + observer ghost"},
-  {"name": "E2 cooperative scheduler + preemption-bounded DFS", "path": "mc/sched + mc/verifsched + mc/cmd/instr", "serves_properties": ["C02","C04","C08","C16"], "kind_free_text": "stateless model checking of the implementation: sync replaced by a shim through go build -overlay, Yield() injected before every statement, all schedules up to a preemption bound"},
+  {"name": "E2 cooperative scheduler + preemption-bounded DFS", "path": "mc/sched + mc/verifsched + mc/cmd/instr", "serves_properties": ["C01","C02","C03","C04","C05","C06","C08","C11","C13","C16"], "kind_free_text": "stateless model checking of the implementation: sync replaced by a shim through go build -overlay, Yield() injected before every statement, all schedules up to a preemption bound"},
   {"name": "E3 bounded-exhaustive enumerator vs reference model", "path": "mc/checks/*", "serves_properties": ["C01","C10","C11","C12","C13","C14","C15","C17","C18","C19","C20"], "kind_free_text": "complete cross product of small per-dimension alphabets executed on the real code and compared with a reference written from the property text"},
  ],
  "checks": [],
